@@ -9,6 +9,6 @@ for f in files:
     if not f.endswith(".rs"):
         continue
     src = subprocess.run(["git", "-C", "/repo", "show", "HEAD:" + f], stdout=subprocess.PIPE, text=True, check=True).stdout
-    names.update(re.findall(r"\bfn\s+([A-Za-z_]\w*)", src))
-open(os.path.join(ROOT, "contracts", "FNS.txt"), "w").write("# names of all functions in /repo/src at the pinned commit (tools/mkfns.py)\n" + "\n".join(sorted(names)) + "\n")
-print("contracts/FNS.txt: %d names" % len(names))
+    names.update("%s %s" % (f, n) for n in re.findall(r"\bfn\s+([A-Za-z_]\w*)", src))
+open(os.path.join(ROOT, "contracts", "FNS.txt"), "w").write("# <file> <name> of every function in /repo/src at the pinned commit (tools/mkfns.py)\n" + "\n".join(sorted(names)) + "\n")
+print("contracts/FNS.txt: %d functions" % len(names))
